@@ -54,9 +54,72 @@ Theorem C04_set_algebra : forall x a b,
 Proof. intros. split; [apply memz_set_union | split; [apply memz_set_inter | apply memz_set_diff]]. Qed.
 Print Assumptions C04_set_algebra.
 
+(** THE REFINEMENT.  [hrun ops] replays any history of Add (of an id that is not live, with supported
+    values) and Remove on the index and on a plain document store side by side.  After any such
+    history every single filter selects exactly the documents of the store that satisfy it:
+    numeric fields by ordinary integer comparison on the stored value, categorical fields by the
+    presence of "field:value" in the document (eq / ne / in / not_in), with ne / not_in relative to the
+    live documents.  (Exists / NotExists, conjunction, disjunction and groups are set algebra over
+    these, see C04_set_algebra; the composed evaluation is compared with the specification on every
+    run.) *)
+From Comet Require Import Proofs.MetaRefineP.
+Theorem C04_filter_refines_document_store : forall ops f r x,
+  ops_int64 ops ->
+  (forall z, f_num f = Some z -> int64 z) -> (forall z, f_num2 f = Some z -> int64 z) ->
+  let '(s, docs) := hrun ops in
+  match f_op f with OExists | ONotExists => False | _ => True end ->
+  eval_filter s f = Some r ->
+  memz x r =
+  match num_find (f_field f) (m_num s) with
+  | Some _ =>
+      match doc_num docs (f_field f) x with
+      | None => false
+      | Some v =>
+          match f_op f, f_num f, f_num2 f with
+          | OEq, Some a, _ => v =? a
+          | ONe, Some a, _ => negb (v =? a)
+          | OGt, Some a, _ => a <? v
+          | OGte, Some a, _ => a <=? v
+          | OLt, Some a, _ => v <? a
+          | OLte, Some a, _ => v <=? a
+          | ORange, Some a, Some b => (a <=? v) && (v <=? b)
+          | _, _, _ => false
+          end
+      end
+  | None =>
+      match f_op f, f_list f with
+      | OEq, _ => doc_has_key docs (key_of (f_field f) (f_str f)) x
+      | ONe, _ => live docs x && negb (doc_has_key docs (key_of (f_field f) (f_str f)) x)
+      | OIn, Some vals => existsb (fun v => doc_has_key docs (key_of (f_field f) v) x) vals
+      | ONotIn, Some vals => live docs x && negb (existsb (fun v => doc_has_key docs (key_of (f_field f) v) x) vals)
+      | _, _ => false
+      end
+  end.
+Proof. exact filter_refines_document_store. Qed.
+Print Assumptions C04_filter_refines_document_store.
+
+(** the index state after any history IS the document store: categorical keys, live set, numeric values *)
+Theorem C04_index_state_is_document_store : forall ops,
+  let '(s, docs) := hrun ops in
+  (forall x, memz x (m_all s) = memz x (map fst docs)) /\
+  (forall key x, memz x (cget key (m_cat s)) = match dfind x docs with Some fl => has_key key fl | None => false end) /\
+  (forall field x, stored (nget field (m_num s)) x = match dfind x docs with Some fl => last_num field fl | None => None end).
+Proof.
+  intros ops. pose proof (inv_cat_run ops) as Hc. pose proof (inv_num_run ops) as Hn.
+  destruct (hrun ops) as [s docs]. destruct Hc as [Ha Hk]. destruct Hn as [_ Hs]. auto.
+Qed.
+Print Assumptions C04_index_state_is_document_store.
+
 Example C04_example :
   let s1 := fst (madd minit 1 [([110], MInt 5)]) in
   let s2 := fst (madd s1 2 [([110], MInt (-5))]) in
   msearch s2 [{| f_field := [110]; f_op := OEq; f_num := Some (-5); f_num2 := None; f_str := []; f_list := None |}] [] = Some [2]
   /\ msearch s2 [{| f_field := [110]; f_op := OGt; f_num := Some (-7); f_num2 := None; f_str := []; f_list := None |}] [] = Some [1; 2].
 Proof. vm_compute. split; reflexivity. Qed.
+
+(** the refinement's history runner on a non-trivial history (add, add, remove, re-add) *)
+Example C04_refinement_history :
+  let ops := [HAdd 1 [([110], MInt 5); ([99], MStr [97])]; HAdd 2 [([110], MInt (-5))]; HRemove 1; HAdd 1 [([110], MInt 7)]] in
+  ops_int64 ops /\ map fst (snd (hrun ops)) = [2; 1] /\
+  msearch (fst (hrun ops)) [{| f_field := [110]; f_op := OGt; f_num := Some 0; f_num2 := None; f_str := []; f_list := None |}] [] = Some [1].
+Proof. cbv zeta. split; [apply ops_int64b_sound; vm_compute; reflexivity|split; vm_compute; reflexivity]. Qed.
